@@ -243,8 +243,9 @@ def _h(obj) -> str:
     return hashlib.sha256(json.dumps(obj, sort_keys=True, default=repr).encode()).hexdigest()[:16]
 
 
-def tree(b) -> dict:
-    """Semantic dump: {'project': attrs, 'nodes': {(kind, uid): {...}}, 'types': {...}, 'root': uid}."""
+def tree(b, light=False) -> dict:
+    """Semantic dump: {'project': attrs, 'nodes': {(kind, uid): {...}}, 'types': {...}, 'root': uid}.
+    light=True skips attribute and dataset contents (structure and property groups only)."""
     res = {"project": {}, "nodes": {}, "types": {}, "root": None, "name": None}
     with open_bytes(b) as f:
         tops = list(f)
@@ -259,14 +260,14 @@ def tree(b) -> dict:
             for tk in TYPE_KINDS.values():
                 if tk in proj["Types"]:
                     for key, node in proj["Types"][tk].items():
-                        res["types"][(tk, norm_uid(key))] = {"attrs": _attrs(node), "dsets": _dsets(node)}
+                        res["types"][(tk, norm_uid(key))] = {"attrs": {} if light else _attrs(node), "dsets": {} if light else _dsets(node)}
         for kind in KINDS:
             if kind not in proj:
                 continue
             for key, node in proj[kind].items():
                 if not isinstance(node, h5py.Group):
                     continue
-                ent = {"attrs": _attrs(node), "dsets": _dsets(node), "children": {}, "type": None, "pgs": {}, "concat": None}
+                ent = {"attrs": {} if light else _attrs(node), "dsets": {} if light else _dsets(node), "children": {}, "type": None, "pgs": {}, "concat": None}
                 if ra is not None and addr(node) == ra:
                     res["root"] = norm_uid(key)
                 for sub in KINDS:
@@ -277,7 +278,7 @@ def tree(b) -> dict:
                 if "PropertyGroups" in node:
                     for pgk, pg in node["PropertyGroups"].items():
                         ent["pgs"][norm_uid(pgk)] = _attrs(pg)
-                if "Concatenated Data" in node:
+                if "Concatenated Data" in node and not light:
                     ent["concat"] = _concat(node["Concatenated Data"])
                 res["nodes"][(kind, norm_uid(key))] = ent
     return res
